@@ -96,4 +96,635 @@ theorem cinv_step {v s l s'} (h : CInv v s) (hs : step v s l = some s') : CInv v
     constructor <;> simp_all
     intro _; exact h2 (by omega)
 
+/-! ### The per-subscriber invariant -/
+
+def pendOf (bc : Option (Entry × Nat)) (i : Nat) : List Entry :=
+  match bc with
+  | some (e, pc) => if pc ≤ i then [e] else []
+  | none => []
+
+theorem pend_eq (s : State) (i : Nat) : pend s i = pendOf s.bc i := rfl
+
+/-- Invariant of subscriber `i` in a context (log, fan-out, closeCh, closed). -/
+structure SubWF (log : List Entry) (bc : Option (Entry × Nat)) (closeCh closed : Bool)
+    (i : Nat) (u : Sub) : Prop where
+  joined : u.joinedAt ≤ log.length
+  suffix : u.missed = false → u.seq ++ pendOf bc i = log.drop u.joinedAt
+  missedWhy : u.missed = true → u.exitClosed = true ∨ closeCh = true
+  exitPc : u.exitClosed = true ↔ (u.pc = .wantLock ∨ u.pc = .done)
+  listPc : u.inList = false ↔ u.pc = .done
+  missedLoop : u.missed = true → inLoop u = true →
+    closed = true ∧ ∀ e pc, bc = some (e, pc) → i < pc
+  loopPrefix : inLoop u = true → u.seq <+: log.drop u.joinedAt
+  delPrefix : u.delivered <+: log.drop u.joinedAt
+  holding : u.pc = .holding → u.hand.isSome = true
+  idle : u.pc = .idle → u.hand = none
+  bufLen : u.buf.length ≤ bufferSize
+
+structure WF (s : State) : Prop where
+  bcLast : ∀ e pc, s.bc = some (e, pc) → ∃ l0, s.log = l0 ++ [e]
+  bcPc : ∀ e pc, s.bc = some (e, pc) → pc ≤ s.subs.length
+  chClosed : s.closeCh = true → s.closed = true
+  subs : ∀ i u, s.subs[i]? = some u → SubWF s.log s.bc s.closeCh s.closed i u
+
+theorem getElem?_set_cases {α : Type} {l : List α} {k i : Nat} {a b : α}
+    (h : (l.set k a)[i]? = some b) : (i = k ∧ b = a) ∨ (i ≠ k ∧ l[i]? = some b) := by
+  rw [List.getElem?_set] at h
+  split at h
+  · next hk =>
+    split at h
+    · left; exact ⟨hk.symm, by simpa using h.symm⟩
+    · simp at h
+  · next hk => right; exact ⟨fun e => hk e.symm, h⟩
+
+theorem getElem?_append_one_cases {α : Type} {l : List α} {i : Nat} {a b : α}
+    (h : (l ++ [a])[i]? = some b) : (i = l.length ∧ b = a) ∨ (i < l.length ∧ l[i]? = some b) := by
+  by_cases hi : i < l.length
+  · right; rw [List.getElem?_append_left hi] at h; exact ⟨hi, h⟩
+  · left
+    have hi' : l.length ≤ i := by omega
+    rw [List.getElem?_append_right hi'] at h
+    have : i - l.length = 0 := by
+      cases hk : i - l.length with
+      | zero => rfl
+      | succ n => simp [hk] at h
+    simp [this] at h
+    exact ⟨by omega, h.symm⟩
+
+theorem drop_append_one {α : Type} (l : List α) (e : α) (j : Nat) (h : j ≤ l.length) :
+    (l ++ [e]).drop j = l.drop j ++ [e] := List.drop_append_of_le_length h
+
+theorem prefix_drop_append_one {α : Type} (x l : List α) (e : α) (j : Nat) (h : j ≤ l.length)
+    (hp : x <+: l.drop j) : x <+: (l ++ [e]).drop j := by
+  rw [drop_append_one l e j h]
+  exact hp.trans (List.prefix_append _ _)
+
+/-- Nothing about subscriber `i` changes; the log grows by the entry whose fan-out starts. -/
+theorem SubWF.acquire {log cc cl i u} (e : Entry) (h : SubWF log none cc cl i u) (hcl : cl = false) :
+    SubWF (log ++ [e]) (some (e, 0)) cc cl i u := by
+  constructor
+  · simp; have := h.joined; omega
+  · intro hm
+    have := h.suffix hm
+    simp [pendOf] at this ⊢
+    rw [drop_append_one _ _ _ h.joined, ← this]
+  · exact h.missedWhy
+  · exact h.exitPc
+  · exact h.listPc
+  · intro hm hl
+    have := (h.missedLoop hm hl).1
+    simp [hcl] at this
+  · intro hl; exact prefix_drop_append_one _ _ _ _ h.joined (h.loopPrefix hl)
+  · exact prefix_drop_append_one _ _ _ _ h.joined h.delPrefix
+  · exact h.holding
+  · exact h.idle
+  · exact h.bufLen
+
+/-- The fan-out moves on from `pc`; subscriber `i ≠ pc` is untouched. -/
+theorem SubWF.advance {log cc cl i u e pc} (h : SubWF log (some (e, pc)) cc cl i u) (hi : i ≠ pc) :
+    SubWF log (some (e, pc + 1)) cc cl i u := by
+  have hp : pendOf (some (e, pc + 1)) i = pendOf (some (e, pc)) i := by
+    simp only [pendOf]
+    by_cases h1 : pc ≤ i
+    · have : pc + 1 ≤ i := by omega
+      simp [h1, this]
+    · have : ¬ pc + 1 ≤ i := by omega
+      simp [h1, this]
+  constructor
+  · exact h.joined
+  · intro hm; rw [hp]; exact h.suffix hm
+  · exact h.missedWhy
+  · exact h.exitPc
+  · exact h.listPc
+  · intro hm hl
+    obtain ⟨h1, h2⟩ := h.missedLoop hm hl
+    refine ⟨h1, ?_⟩
+    intro e' pc' heq
+    simp at heq
+    have := h2 e pc rfl
+    omega
+  · exact h.loopPrefix
+  · exact h.delPrefix
+  · exact h.holding
+  · exact h.idle
+  · exact h.bufLen
+
+/-- The fan-out is over (`pc` is past every subscriber). -/
+theorem SubWF.finish {log cc cl i u e pc} (h : SubWF log (some (e, pc)) cc cl i u) (hi : i < pc) :
+    SubWF log none cc cl i u := by
+  have hp : pendOf (some (e, pc)) i = [] := by
+    simp only [pendOf]
+    have : ¬ pc ≤ i := by omega
+    simp [this]
+  constructor
+  · exact h.joined
+  · intro hm; have := h.suffix hm; rw [hp] at this; simpa [pendOf] using this
+  · exact h.missedWhy
+  · exact h.exitPc
+  · exact h.listPc
+  · intro hm hl
+    exact ⟨(h.missedLoop hm hl).1, by intro e pc h; simp at h⟩
+  · exact h.loopPrefix
+  · exact h.delPrefix
+  · exact h.holding
+  · exact h.idle
+  · exact h.bufLen
+
+/-- `closed` / `closeCh` only ever become true. -/
+theorem SubWF.mono {log bc cc cl cc' cl' i u} (h : SubWF log bc cc cl i u)
+    (h1 : cc = true → cc' = true) (h2 : cl = true → cl' = true) : SubWF log bc cc' cl' i u := by
+  constructor
+  · exact h.joined
+  · exact h.suffix
+  · intro hm; rcases h.missedWhy hm with h | h
+    · exact Or.inl h
+    · exact Or.inr (h1 h)
+  · exact h.exitPc
+  · exact h.listPc
+  · intro hm hl; exact ⟨h2 (h.missedLoop hm hl).1, (h.missedLoop hm hl).2⟩
+  · exact h.loopPrefix
+  · exact h.delPrefix
+  · exact h.holding
+  · exact h.idle
+  · exact h.bufLen
+
+/-! ### updates of the subscriber itself -/
+
+theorem SubWF.push {log cc cl u e pc} (h : SubWF log (some (e, pc)) cc cl pc u)
+    (hb : u.buf.length < bufferSize) :
+    SubWF log (some (e, pc + 1)) cc cl pc { u with buf := u.buf ++ [e] } := by
+  have hp : pendOf (some (e, pc)) pc = [e] := by simp [pendOf]
+  have hp' : pendOf (some (e, pc + 1)) pc = [] := by simp [pendOf]
+  have hseq : ({ u with buf := u.buf ++ [e] } : Sub).seq = u.seq ++ [e] := by
+    simp [Sub.seq, List.append_assoc]
+  have hnm : inLoop u = true → u.missed = false := by
+    intro hl
+    cases hm : u.missed with
+    | false => rfl
+    | true => have := (h.missedLoop hm hl).2 e pc rfl; omega
+  constructor
+  · exact h.joined
+  · intro hm
+    rw [hseq, hp', List.append_nil]
+    have := h.suffix hm
+    rwa [hp] at this
+  · exact h.missedWhy
+  · exact h.exitPc
+  · exact h.listPc
+  · intro hm hl
+    have := hnm hl
+    simp_all
+  · intro hl
+    have hm := hnm hl
+    have := h.suffix hm
+    rw [hp] at this
+    rw [hseq, this]
+    exact List.prefix_refl _
+  · exact h.delPrefix
+  · exact h.holding
+  · exact h.idle
+  · show (u.buf ++ [e]).length ≤ bufferSize
+    simp; omega
+
+theorem SubWF.skip {log cc cl u e pc} (h : SubWF log (some (e, pc)) cc cl pc u)
+    (hr : u.exitClosed = true ∨ (cc = true ∧ cl = true)) :
+    SubWF log (some (e, pc + 1)) cc cl pc { u with missed := true } := by
+  constructor
+  · exact h.joined
+  · intro hm; simp at hm
+  · intro _; rcases hr with hr | hr
+    · exact Or.inl hr
+    · exact Or.inr hr.1
+  · exact h.exitPc
+  · exact h.listPc
+  · intro _ hl
+    have hl' : inLoop u = true := hl
+    rcases hr with hr | hr
+    · have := h.exitPc.mp hr
+      simp [inLoop] at hl'
+      rcases this with this | this <;> simp [this] at hl'
+    · refine ⟨hr.2, ?_⟩
+      intro e' pc' heq
+      simp at heq
+      omega
+  · exact h.loopPrefix
+  · exact h.delPrefix
+  · exact h.holding
+  · exact h.idle
+  · exact h.bufLen
+
+theorem SubWF.take {log bc cc cl i u x rest} (h : SubWF log bc cc cl i u)
+    (hpc : u.pc = .idle) (hb : u.buf = x :: rest) :
+    SubWF log bc cc cl i { u with hand := some x, buf := rest, pc := .holding } := by
+  have hh := h.idle hpc
+  have hseq : ({ u with hand := some x, buf := rest, pc := .holding } : Sub).seq = u.seq := by
+    simp [Sub.seq, hh, hb]
+  have hl : inLoop u = true := by simp [inLoop, hpc]
+  constructor
+  · exact h.joined
+  · intro hm; rw [hseq]; exact h.suffix hm
+  · exact h.missedWhy
+  · have := h.exitPc; simp [hpc] at this ⊢; exact this
+  · have := h.listPc; simp [hpc] at this ⊢; exact this
+  · intro hm _; exact h.missedLoop hm hl
+  · intro _; rw [hseq]; exact h.loopPrefix hl
+  · exact h.delPrefix
+  · intro _; rfl
+  · intro hc; simp at hc
+  · have := h.bufLen; rw [hb] at this; simp at this ⊢; omega
+
+theorem SubWF.deliver {log bc cc cl i u x} (h : SubWF log bc cc cl i u)
+    (hpc : u.pc = .holding) (hh : u.hand = some x) :
+    SubWF log bc cc cl i { u with delivered := u.delivered ++ [x], hand := none, pc := .idle } := by
+  have hseq : ({ u with delivered := u.delivered ++ [x], hand := none, pc := .idle } : Sub).seq = u.seq := by
+    simp [Sub.seq, hh]
+  have hl : inLoop u = true := by simp [inLoop, hpc]
+  constructor
+  · exact h.joined
+  · intro hm; rw [hseq]; exact h.suffix hm
+  · exact h.missedWhy
+  · have := h.exitPc; simp [hpc] at this ⊢; exact this
+  · have := h.listPc; simp [hpc] at this ⊢; exact this
+  · intro hm _; exact h.missedLoop hm hl
+  · intro _; rw [hseq]; exact h.loopPrefix hl
+  · have := h.loopPrefix hl
+    refine List.IsPrefix.trans ?_ this
+    simp only [Sub.seq, hh, Option.toList]
+    exact List.prefix_append _ _
+  · intro hc; simp at hc
+  · intro _; rfl
+  · exact h.bufLen
+
+theorem SubWF.cancel {log bc cc cl i u} (h : SubWF log bc cc cl i u) :
+    SubWF log bc cc cl i { u with cancelled := true } := by
+  constructor
+  · exact h.joined
+  · exact h.suffix
+  · exact h.missedWhy
+  · exact h.exitPc
+  · exact h.listPc
+  · exact h.missedLoop
+  · exact h.loopPrefix
+  · exact h.delPrefix
+  · exact h.holding
+  · exact h.idle
+  · exact h.bufLen
+
+theorem SubWF.exit {log bc cc cl i u} (h : SubWF log bc cc cl i u) (hl : inLoop u = true) :
+    SubWF log bc cc cl i { u with pc := .exiting } := by
+  have hpc : u.pc = .idle ∨ u.pc = .holding := by simpa [inLoop] using hl
+  constructor
+  · exact h.joined
+  · exact h.suffix
+  · exact h.missedWhy
+  · have := h.exitPc; rcases hpc with hpc | hpc <;> simp [hpc] at this ⊢ <;> exact this
+  · have := h.listPc; rcases hpc with hpc | hpc <;> simp [hpc] at this ⊢ <;> exact this
+  · intro _ hc; simp [inLoop] at hc
+  · intro hc; simp [inLoop] at hc
+  · exact h.delPrefix
+  · intro hc; simp at hc
+  · intro hc; simp at hc
+  · exact h.bufLen
+
+theorem SubWF.closeExit {log bc cc cl i u} (h : SubWF log bc cc cl i u) (hpc : u.pc = .exiting) :
+    SubWF log bc cc cl i { u with exitClosed := true, pc := .wantLock } := by
+  constructor
+  · exact h.joined
+  · exact h.suffix
+  · intro _; exact Or.inl rfl
+  · simp
+  · have := h.listPc; simp [hpc] at this ⊢; exact this
+  · intro _ hc; simp [inLoop] at hc
+  · intro hc; simp [inLoop] at hc
+  · exact h.delPrefix
+  · intro hc; simp at hc
+  · intro hc; simp at hc
+  · exact h.bufLen
+
+theorem SubWF.remove {log bc cc cl i u} (h : SubWF log bc cc cl i u) (hpc : u.pc = .wantLock) :
+    SubWF log bc cc cl i { u with inList := false, pc := .done } := by
+  have he : u.exitClosed = true := h.exitPc.mpr (Or.inl hpc)
+  constructor
+  · exact h.joined
+  · exact h.suffix
+  · intro _; exact Or.inl he
+  · simp [he]
+  · simp
+  · intro _ hc; simp [inLoop] at hc
+  · intro hc; simp [inLoop] at hc
+  · exact h.delPrefix
+  · intro hc; simp at hc
+  · intro hc; simp at hc
+  · exact h.bufLen
+
+theorem SubWF.new (log : List Entry) (cc cl : Bool) (i h : Nat) :
+    SubWF log none cc cl i (Sub.new h log.length) := by
+  constructor <;> simp [Sub.new, Sub.seq, pendOf, inLoop, bufferSize]
+
+/-! ### state-level preservation, by shape of the update -/
+
+theorem WF.frame {s s' : State} (h : WF s) (h1 : s'.subs = s.subs) (h2 : s'.log = s.log)
+    (h3 : s'.bc = s.bc) (h4 : s'.closeCh = s.closeCh) (h5 : s'.closed = s.closed) : WF s' := by
+  constructor
+  · rw [h2, h3]; exact h.bcLast
+  · rw [h1, h3]; exact h.bcPc
+  · rw [h4, h5]; exact h.chClosed
+  · rw [h1, h2, h3, h4, h5]; exact h.subs
+
+theorem WF.close {s s' : State} (h : WF s) (h1 : s'.subs = s.subs) (h2 : s'.log = s.log)
+    (h3 : s'.bc = s.bc) (h4 : s.closeCh = true → s'.closeCh = true)
+    (h5 : s.closed = true → s'.closed = true) (h6 : s'.closeCh = true → s'.closed = true) : WF s' := by
+  constructor
+  · rw [h2, h3]; exact h.bcLast
+  · rw [h1, h3]; exact h.bcPc
+  · exact h6
+  · rw [h1, h2, h3]; intro i u hi; exact (h.subs i u hi).mono h4 h5
+
+theorem WF.setSub {s s' : State} {k : Nat} {u' : Sub} (h : WF s)
+    (hu : SubWF s.log s.bc s.closeCh s.closed k u') (h1 : s'.subs = s.subs.set k u')
+    (h2 : s'.log = s.log) (h3 : s'.bc = s.bc) (h4 : s'.closeCh = s.closeCh)
+    (h5 : s'.closed = s.closed) : WF s' := by
+  constructor
+  · rw [h2, h3]; exact h.bcLast
+  · rw [h1, h3]; simpa using h.bcPc
+  · rw [h4, h5]; exact h.chClosed
+  · rw [h1, h2, h3, h4, h5]
+    intro i u hi
+    rcases getElem?_set_cases hi with ⟨rfl, rfl⟩ | ⟨_, hi'⟩
+    · exact hu
+    · exact h.subs i u hi'
+
+theorem WF.fan {s s' : State} {e : Entry} {pc : Nat} {u' : Sub} (h : WF s)
+    (hbc : s.bc = some (e, pc)) (hlt : pc < s.subs.length)
+    (hu : SubWF s.log (some (e, pc + 1)) s.closeCh s.closed pc u')
+    (h1 : s'.subs = s.subs.set pc u') (h2 : s'.log = s.log) (h3 : s'.bc = some (e, pc + 1))
+    (h4 : s'.closeCh = s.closeCh) (h5 : s'.closed = s.closed) : WF s' := by
+  constructor
+  · rw [h2, h3]; intro e' pc' heq; simp at heq; obtain ⟨rfl, _⟩ := heq; exact h.bcLast e pc hbc
+  · rw [h1, h3]; intro e' pc' heq; simp at heq ⊢; omega
+  · rw [h4, h5]; exact h.chClosed
+  · rw [h1, h2, h3, h4, h5]
+    intro i u hi
+    rcases getElem?_set_cases hi with ⟨rfl, rfl⟩ | ⟨hne, hi'⟩
+    · exact hu
+    · have := h.subs i u hi'
+      rw [hbc] at this
+      exact this.advance hne
+
+theorem WF.acquire {s s' : State} {e : Entry} (h : WF s) (hbc : s.bc = none)
+    (hcl : s.closed = false) (h1 : s'.subs = s.subs) (h2 : s'.log = s.log ++ [e])
+    (h3 : s'.bc = some (e, 0)) (h4 : s'.closeCh = s.closeCh) (h5 : s'.closed = s.closed) :
+    WF s' := by
+  constructor
+  · rw [h2, h3]; intro e' pc' heq; simp at heq; obtain ⟨rfl, _⟩ := heq; exact ⟨_, rfl⟩
+  · rw [h3]; intro e' pc' heq; simp at heq; omega
+  · rw [h4, h5]; exact h.chClosed
+  · rw [h1, h2, h3, h4, h5]
+    intro i u hi
+    have := h.subs i u hi
+    rw [hbc] at this
+    exact this.acquire e hcl
+
+theorem WF.finish {s s' : State} {e : Entry} {pc : Nat} (h : WF s) (hbc : s.bc = some (e, pc))
+    (hpc : s.subs.length ≤ pc) (h1 : s'.subs = s.subs) (h2 : s'.log = s.log)
+    (h3 : s'.bc = none) (h4 : s'.closeCh = s.closeCh) (h5 : s'.closed = s.closed) : WF s' := by
+  constructor
+  · rw [h3]; intro e' pc' heq; simp at heq
+  · rw [h3]; intro e' pc' heq; simp at heq
+  · rw [h4, h5]; exact h.chClosed
+  · rw [h1, h2, h3, h4, h5]
+    intro i u hi
+    have hlt : i < s.subs.length := by
+      have := List.getElem?_eq_some_iff.mp hi
+      exact this.1
+    have := h.subs i u hi
+    rw [hbc] at this
+    exact this.finish (by omega)
+
+theorem WF.newSub {s s' : State} {t : Nat} (h : WF s) (hbc : s.bc = none)
+    (h1 : s'.subs = s.subs ++ [Sub.new t s.log.length]) (h2 : s'.log = s.log)
+    (h3 : s'.bc = s.bc) (h4 : s'.closeCh = s.closeCh) (h5 : s'.closed = s.closed) : WF s' := by
+  constructor
+  · rw [h2, h3]; exact h.bcLast
+  · rw [h3, hbc]; intro e' pc' heq; simp at heq
+  · rw [h4, h5]; exact h.chClosed
+  · rw [h1, h2, h3, h4, h5]
+    intro i u hi
+    rcases getElem?_append_one_cases hi with ⟨_, rfl⟩ | ⟨_, hi'⟩
+    · rw [hbc]; exact SubWF.new _ _ _ _ _
+    · exact h.subs i u hi'
+
+theorem wf_init : WF init := by
+  constructor <;> simp [init]
+
+theorem lt_of_getElem? {α} {l : List α} {i : Nat} {a : α} (h : l[i]? = some a) : i < l.length :=
+  (List.getElem?_eq_some_iff.mp h).1
+
+theorem wf_step {v s l s'} (h : WF s) (hs : step v s l = some s') : WF s' := by
+  cases l <;> unfold_step hs
+  case bcCall x => simp at hs; subst hs; exact h.frame rfl rfl rfl rfl rfl
+  case bcAcquire k =>
+    split at hs
+    · next e hbc hk =>
+      split at hs <;> simp at hs <;> subst hs
+      · exact h.frame rfl rfl rfl rfl rfl
+      · next hcl => exact h.acquire hbc (by simpa using hcl) rfl rfl rfl rfl rfl
+    · simp at hs
+  case bcPush =>
+    split at hs
+    · next e pc hbc =>
+      split at hs
+      · next u hu =>
+        split at hs <;> simp at hs
+        next hg =>
+        subst hs
+        have hw := h.subs pc u hu
+        rw [hbc] at hw
+        exact h.fan hbc (lt_of_getElem? hu) (hw.push hg.2) rfl rfl rfl rfl rfl
+      · simp at hs
+    · simp at hs
+  case bcSkipExit =>
+    split at hs
+    · next e pc hbc =>
+      split at hs
+      · next u hu =>
+        split at hs <;> simp at hs
+        next hg =>
+        subst hs
+        have hw := h.subs pc u hu
+        rw [hbc] at hw
+        exact h.fan hbc (lt_of_getElem? hu) (hw.skip (Or.inl hg.2)) rfl rfl rfl rfl rfl
+      · simp at hs
+    · simp at hs
+  case bcSkipClose =>
+    split at hs
+    · next e pc hbc =>
+      split at hs
+      · next u hu =>
+        split at hs <;> simp at hs
+        next hg =>
+        subst hs
+        have hw := h.subs pc u hu
+        rw [hbc] at hw
+        exact h.fan hbc (lt_of_getElem? hu) (hw.skip (Or.inr ⟨hg.2, h.chClosed hg.2⟩)) rfl rfl rfl rfl rfl
+      · simp at hs
+    · simp at hs
+  case bcSkipGone =>
+    split at hs
+    · next e pc hbc =>
+      split at hs
+      · next u hu =>
+        split at hs <;> simp at hs
+        next hg =>
+        subst hs
+        have hw := h.subs pc u hu
+        rw [hbc] at hw
+        have hex : u.exitClosed = true := hw.exitPc.mpr (Or.inr (hw.listPc.mp hg))
+        exact h.fan hbc (lt_of_getElem? hu) (hw.skip (Or.inl hex)) rfl rfl rfl rfl rfl
+      · simp at hs
+    · simp at hs
+  case bcFinish =>
+    split at hs
+    · next e pc hbc =>
+      split at hs <;> simp at hs
+      next hg =>
+      subst hs
+      exact h.finish hbc hg rfl rfl rfl rfl rfl
+    · simp at hs
+  case bcReturn t =>
+    split at hs
+    · simp at hs; subst hs; exact h.frame rfl rfl rfl rfl rfl
+    · split at hs <;> simp at hs
+      subst hs; exact h.frame rfl rfl rfl rfl rfl
+  case subCall => simp at hs; subst hs; exact h.frame rfl rfl rfl rfl rfl
+  case subAcquire k =>
+    split at hs
+    · next t hbc hk =>
+      split at hs <;> simp at hs <;> subst hs
+      · exact h.frame rfl rfl rfl rfl rfl
+      · exact h.newSub hbc rfl rfl rfl rfl rfl
+    · simp at hs
+  case subReturn t =>
+    split at hs <;> simp at hs
+    subst hs; exact h.frame rfl rfl rfl rfl rfl
+  case cancel i =>
+    split at hs <;> simp at hs
+    next u hu =>
+    subst hs
+    exact h.setSub (h.subs i u hu).cancel rfl rfl rfl rfl rfl
+  case fwdTake i =>
+    split at hs
+    · next u hu =>
+      split at hs <;> simp at hs
+      next x rest hpc hb =>
+      subst hs
+      exact h.setSub ((h.subs i u hu).take hpc hb) rfl rfl rfl rfl rfl
+    · simp at hs
+  case fwdDeliver i =>
+    split at hs
+    · next u hu =>
+      split at hs <;> simp at hs
+      next x hpc hh =>
+      subst hs
+      exact h.setSub ((h.subs i u hu).deliver hpc hh) rfl rfl rfl rfl rfl
+    · simp at hs
+  case fwdExitCtx i =>
+    split at hs
+    · next u hu =>
+      split at hs <;> simp at hs
+      next hg =>
+      subst hs
+      exact h.setSub ((h.subs i u hu).exit hg.1) rfl rfl rfl rfl rfl
+    · simp at hs
+  case fwdExitClose i =>
+    split at hs
+    · next u hu =>
+      split at hs <;> simp at hs
+      next hg =>
+      subst hs
+      exact h.setSub ((h.subs i u hu).exit hg.1) rfl rfl rfl rfl rfl
+    · simp at hs
+  case fwdCloseExit i =>
+    split at hs
+    · next u hu =>
+      split at hs <;> simp at hs
+      next hg =>
+      subst hs
+      exact h.setSub ((h.subs i u hu).closeExit hg) rfl rfl rfl rfl rfl
+    · simp at hs
+  case fwdRemove i =>
+    split at hs
+    · next u hu =>
+      split at hs <;> simp at hs
+      next hg =>
+      subst hs
+      exact h.setSub ((h.subs i u hu).remove hg.1) rfl rfl rfl rfl rfl
+    · simp at hs
+  case closeCall => simp at hs; subst hs; exact h.frame rfl rfl rfl rfl rfl
+  case closeCas =>
+    split at hs
+    · split at hs <;> simp at hs
+      subst hs
+      exact h.close rfl rfl rfl (fun x => x) (fun _ => rfl) (fun _ => rfl)
+    · split at hs <;> simp at hs
+      subst hs
+      exact h.close rfl rfl rfl (fun _ => rfl) (fun _ => rfl) (fun _ => rfl)
+  case closeChClose =>
+    split at hs <;> simp at hs
+    next hg =>
+    subst hs
+    exact h.close rfl rfl rfl (fun _ => rfl) (fun x => x) (fun _ => hg.2.1)
+  case closePass =>
+    split at hs <;> simp at hs
+    subst hs; exact h.frame rfl rfl rfl rfl rfl
+  case closeReturn =>
+    split at hs <;> simp at hs
+    subst hs; exact h.frame rfl rfl rfl rfl rfl
+
+/-- Every subscriber's forwarder has finished. -/
+def AllDone (s : State) : Prop := ∀ (i : Nat) (u : Sub), s.subs[i]? = some u → u.pc = FPc.done
+
+theorem allDone_iff (s : State) : allDone s = true ↔ AllDone s := by
+  simp only [allDone, AllDone, List.all_eq_true, beq_iff_eq]
+  constructor
+  · intro h i u hi; exact h u (List.mem_of_getElem? hi)
+  · intro h u hu
+    obtain ⟨i, hi, rfl⟩ := List.getElem_of_mem hu
+    exact h i _ (List.getElem?_eq_getElem hi)
+
+theorem done_step {v s l s'} (hci : CInv v s) (hs : step v s l = some s')
+    (h : 0 < s.closeReturned → s.closed = true ∧ AllDone s) :
+    0 < s'.closeReturned → s'.closed = true ∧ AllDone s' := by
+  cases l <;> unfold_step hs <;> (repeat' split at hs) <;> (try simp at hs) <;> (try subst hs) <;>
+    simp only [AllDone] at h ⊢ <;> intro hr
+  all_goals try (
+    have hr0 : 0 < s.closeReturned := by first | exact hr | fail
+    obtain ⟨hc, hd⟩ := h hr0
+    first
+    | exact ⟨hc, hd⟩
+    | (refine ⟨hc, ?_⟩
+       intro i u hi
+       rcases getElem?_set_cases hi with ⟨rfl, rfl⟩ | ⟨_, hi'⟩
+       · have := hd _ _ (by assumption)
+         simp_all [inLoop]
+       · exact hd _ _ hi')
+    | exact ⟨by simp, hd⟩
+    | (simp_all; done))
+  · -- closeReturn
+    next hg =>
+    exact ⟨hci.post_closed (by omega), (allDone_iff s).mp hg.2⟩
+
+theorem done_reach {v : Variant} : ∀ s, Reach v s →
+    (0 < s.closeReturned → s.closed = true ∧ AllDone s) :=
+  inv_of_inductive (fun s => 0 < s.closeReturned → s.closed = true ∧ AllDone s)
+    (by simp [init])
+    (fun _ _ _ hr h hs => done_step (inv_of_inductive (CInv v) (cinv_init v)
+      (fun _ _ _ _ h hs => cinv_step h hs) _ hr) hs h)
+
+theorem wf_reach {v : Variant} : ∀ s, Reach v s → WF s :=
+  inv_of_inductive WF wf_init (fun _ _ _ _ h hs => wf_step h hs)
+
+theorem cinv_reach {v : Variant} : ∀ s, Reach v s → CInv v s :=
+  inv_of_inductive (CInv v) (cinv_init v) (fun _ _ _ _ h hs => cinv_step h hs)
+
 end Kit.Broadcaster
